@@ -116,7 +116,7 @@ pub fn jstr(s: &str) -> String {
 }
 
 /// run `f` catching panics; returns Err(message) on panic
-pub fn catch<T>(f: impl FnOnce() -> T + std::panic::UnwindSafe) -> Result<T, String> {
+pub fn catch<T>(f: impl FnOnce() -> T + std::panic::UnwindSafe) -> std::result::Result<T, String> {
     match std::panic::catch_unwind(f) {
         Ok(v) => Ok(v),
         Err(p) => {
